@@ -45,7 +45,7 @@ def run(chk):
     chk.validate('aligners', 'Trace_Align', 'Trace_Align.cfg', recs, driver='align', jobs=12)
     # ---- binding demonstration: corrupt one mapping entry of an accepted record ----
     goods = [r for r in recs if r['kind'] == 'apply' and r['exc'] == '' and len(r['mask']) >= 2]
-    good = goods[0]
+    good = goods[0] if goods else None
 
     def corrupt(r):
         r['mapping'][0][0] = r['mapping'][1][0]
